@@ -259,5 +259,93 @@ theorem solve_map (h : ActHom φ ψ) (S : Skyline V R) (rhs x : Array R) :
 
 end solve
 
+/-! ### the constructor -/
+section build
+variable [Zero V] [Zero V'] [Zero R] [Zero R']
+
+theorem getD_map' {α β : Type} (f : α → β) (a : Array α) (i : Nat) (d : α) (d' : β) (h : f d = d') :
+    (a.map f).getD i d' = f (a.getD i d) := by
+  unfold Array.getD
+  by_cases hi : i < a.size
+  · simp [hi]
+  · simp [hi, h]
+
+theorem foldl_hom_mem {α₁ α₂ β : Type} (f : α₁ → α₂) (g₁ : α₁ → β → α₁) (g₂ : α₂ → β → α₂) (l : List β)
+    (H : ∀ x, ∀ y ∈ l, g₂ (f x) y = f (g₁ x y)) (init : α₁) : l.foldl g₂ (f init) = f (l.foldl g₁ init) := by
+  induction l generalizing init with
+  | nil => rfl
+  | cons a t ih =>
+    simp only [List.foldl_cons]
+    rw [H init a List.mem_cons_self]
+    exact ih (fun x y hy => H x y (List.mem_cons_of_mem _ hy)) _
+
+/-- entrywise image of a CRS matrix -/
+def _root_.Amgcl.CRS.mapVal (φ : V → V') (A : CRS V) : CRS V' :=
+  ⟨A.ncols, A.rows.map (fun r => r.map (fun cv => (cv.1, φ cv.2)))⟩
+
+theorem row_mapVal (φ : V → V') (A : CRS V) (i : Nat) :
+    (A.mapVal φ).row i = (A.row i).map (fun cv => (cv.1, φ cv.2)) := by
+  unfold CRS.row CRS.mapVal
+  exact getD_map' _ A.rows i [] [] rfl
+
+theorem nrows_mapVal (φ : V → V') (A : CRS V) : (A.mapVal φ).nrows = A.nrows := by
+  unfold CRS.nrows CRS.mapVal; simp
+
+theorem profileLens_mapVal (φ : V → V') (isZero : V → Bool) (isZero' : V' → Bool) (A : CRS V) (n : Nat) (ip : Array Nat)
+    (hz : ∀ i, ∀ cv ∈ A.row i, isZero' (φ cv.2) = isZero cv.2) :
+    profileLens isZero' (A.mapVal φ) n ip = profileLens isZero A n ip := by
+  unfold profileLens
+  apply foldl_congr_mem
+  intro ptr i _
+  rw [row_mapVal, List.foldl_map]
+  apply foldl_congr_mem
+  intro ptr cv hcv
+  simp only [hz i cv hcv]
+
+theorem fillLUD_mapVal (φ : V → V') (h0 : φ 0 = 0) (isZero : V → Bool) (isZero' : V' → Bool) (A : CRS V) (n : Nat)
+    (ip ptr : Array Nat) (hz : ∀ i, ∀ cv ∈ A.row i, isZero' (φ cv.2) = isZero cv.2)
+    (LUD : Array V × Array V × Array V) :
+    fillLUD isZero' (A.mapVal φ) n ip ptr (LUD.1.map φ, LUD.2.1.map φ, LUD.2.2.map φ)
+      = ((fillLUD isZero A n ip ptr LUD).1.map φ, (fillLUD isZero A n ip ptr LUD).2.1.map φ,
+         (fillLUD isZero A n ip ptr LUD).2.2.map φ) := by
+  unfold fillLUD
+  apply List.foldl_hom (fun X : Array V × Array V × Array V => (X.1.map φ, X.2.1.map φ, X.2.2.map φ))
+  intro X i
+  rw [row_mapVal, List.foldl_map]
+  apply foldl_hom_mem (fun X : Array V × Array V × Array V => (X.1.map φ, X.2.1.map φ, X.2.2.map φ))
+  intro X cv hcv
+  simp only [hz i cv hcv]
+  split
+  · split
+    · simp only [Array.map_setIfInBounds]
+    · split
+      · simp only [Array.map_setIfInBounds]
+      · simp only [Array.map_setIfInBounds]
+  · rfl
+
+/-- **the constructor commutes with the entrywise image** -/
+theorem build_mapVal (φ : V → V') (ψ : R → R') (h0 : φ 0 = 0) (hψ : ψ 0 = 0) (isZero : V → Bool) (isZero' : V' → Bool)
+    (A : CRS V) (perm : Array Nat) (hz : ∀ i, ∀ cv ∈ A.row i, isZero' (φ cv.2) = isZero cv.2) :
+    build (R := R') isZero' (A.mapVal φ) perm = (build (R := R) isZero A perm).map φ ψ := by
+  unfold build
+  simp only [nrows_mapVal, profileLens_mapVal φ isZero isZero' A _ _ hz]
+  have hf := fillLUD_mapVal φ h0 isZero isZero' A A.nrows (invPerm A.nrows perm)
+    (prefixPtr A.nrows (profileLens isZero A A.nrows (invPerm A.nrows perm))) hz
+    (Array.replicate ((prefixPtr A.nrows (profileLens isZero A A.nrows (invPerm A.nrows perm))).getD A.nrows 0) 0,
+     Array.replicate ((prefixPtr A.nrows (profileLens isZero A A.nrows (invPerm A.nrows perm))).getD A.nrows 0) 0,
+     Array.replicate A.nrows 0)
+  simp only [Array.map_replicate, h0] at hf
+  apply ext7
+  · rfl
+  · rfl
+  · rfl
+  · exact congrArg (·.1) hf
+  · exact congrArg (·.2.1) hf
+  · exact congrArg (·.2.2) hf
+  · show Array.replicate A.nrows (0 : R') = (Array.replicate A.nrows (0 : R)).map ψ
+    rw [Array.map_replicate, hψ]
+
+end build
+
 end Skyline
 end Amgcl
